@@ -343,6 +343,8 @@ def root_decls(case: dict) -> dict:
     d = dict(case['doc']['ns']) if 'ns' in case['doc'] else dict(NSDECL)
     if case.get('tns'):
         d['t'] = TNS
+        if case.get('etag') == 'default':      # the instance writes its elements unprefixed under xmlns="urn:t"
+            d[''] = TNS
     return d
 
 
@@ -352,7 +354,7 @@ def _esc(v: str) -> str:
 
 def xml_text(case: dict) -> str:
     fields = case['fields']
-    pf = 't:' if case.get('tns') else ''
+    pf = 't:' if case.get('tns') and case.get('etag') != 'default' else ''
 
     def decls(d: Optional[dict]) -> str:
         return ''.join(f' xmlns{":" + p if p else ""}="{u}"' for p, u in (d or {}).items())
@@ -998,7 +1000,7 @@ def scatter_ns(rng, case: dict) -> None:
     """the dimension `namespace declarations in scope where a field value is read`: declarations on the root
     (possibly other than NSDECL), containers, rows, field child elements, leading / trailing children of rows
     (and their descendants) and sibling notes between rows"""
-    tns, fields, root = bool(case.get('tns')), case['fields'], case['doc']
+    tns, fields, root = bool(case.get('tns')) and case.get('etag') != 'default', case['fields'], case['doc']
     root['ns'] = dict(NSDECL)
     if tns and rng.random() < 0.5:
         root['ns'][''] = rng.choice(URIS)
@@ -1038,9 +1040,11 @@ def random_case(rng, big: bool) -> dict:
     case = {'v': rng.choice(['1.0', '1.0', '1.1']), 'recursive': recursive, 'fields': fields, 'cons': cons,
             'doc': gen_doc(rng, fields, recursive, big, tns), 'tns': tns,
             'src': rng.choice(['etree', 'etree', 'text', 'lxml'] if nsmode == 'root' else ['text', 'text', 'lxml'])}
+    if tns and rng.random() < 0.3:
+        case['etag'] = 'default'
     if nsmode == 'scatter':
         scatter_ns(rng, case)
-    elif tns and rng.random() < 0.5:
+    elif tns and 'etag' not in case and rng.random() < 0.5:
         case['doc']['ns'] = dict(NSDECL, **{'': rng.choice(URIS)})
     if case['src'] != 'etree' and rng.random() < 0.25:
         case['nsarg'] = True
@@ -1055,7 +1059,7 @@ def ns_stats(case: dict) -> list[str]:
     fields = case['fields']
     out = {'ns:src=' + case.get('src', 'etree') + ('+namespaces-arg' if case.get('nsarg') else '')}
     if case.get('tns'):
-        out.add('ns:target-namespace-template')
+        out.add('ns:target-namespace-template' + ('/elements-in-default-namespace' if case.get('etag') else ''))
     if any(f.get('d') or f.get('rd') for f in fields):
         out.add('type:field-declared-with-user-restriction-of-builtin')
     scope = scopes_of(case)
